@@ -34,6 +34,7 @@ class Scheduler:
         self.active = False
         self.task_completion_order = []
         self.max_points = 200000
+        self.pools = []            # model pools that left queued work behind (abandoned imap)
 
     # ---- choice -------------------------------------------------------------------------------
     def _choose(self, enabled, running_enabled, kind):
@@ -235,16 +236,40 @@ class ModelPool:
         return ModelAsyncResult(lambda: self.starmap(func, iterable, chunksize), callback, error_callback)
 
     def imap(self, func, iterable, chunksize=1):
-        # ordered; a failing task surfaces when its position is reached
-        tasks = list(iterable)
-        outcomes = self.map(lambda t: _capture(func, t), tasks, chunksize)
-        for ok, val in outcomes:
-            if not ok:
-                raise val
-            yield val
+        return self._lazy_imap(func, iterable, chunksize)
 
     def imap_unordered(self, func, iterable, chunksize=1):
-        return self.imap(func, iterable, chunksize)
+        return self._lazy_imap(func, iterable, chunksize)
+
+    def _lazy_imap(self, func, iterable, chunksize):
+        """imap / imap_unordered: results surface while later tasks are still queued.  Modelled in waves of `processes` chunks (each wave
+        explored by the scheduler like a map); when a wave fails, its exception is raised to the consumer at once and the chunks not yet
+        started STAY QUEUED on the pool (`background`): the real pool's workers would go on executing them unless terminate() is called,
+        and join() waits for them."""
+        self._check_running()
+        tasks = list(iterable)
+        cs = max(1, chunksize or 1)
+        chunks = [tasks[i:i + cs] for i in range(0, len(tasks), cs)]
+        sch = CURRENT
+        if sch is None:
+            raise RuntimeError("ModelPool used outside an exploration")
+        if self not in sch.pools:
+            sch.pools.append(self)
+
+        def gen():
+            pos = 0
+            while pos < len(chunks):
+                wave = chunks[pos:pos + self.processes]
+                pos += len(wave)
+                try:
+                    out = sch.run_map(func, wave, self.processes)
+                except Exception:
+                    self._background = (func, chunks[pos:])
+                    raise
+                for v in out:
+                    yield v
+
+        return gen()
 
     def apply(self, func, args=(), kwds=None):
         return self.map(lambda _: func(*args, **(kwds or {})), [0])[0]
@@ -252,20 +277,43 @@ class ModelPool:
     def apply_async(self, func, args=(), kwds=None, callback=None, error_callback=None):
         return ModelAsyncResult(lambda: self.apply(func, args, kwds), callback, error_callback)
 
+    _background = None
+
     def close(self):
         self._running = False
 
     def terminate(self):
         self._running = False
+        self._background = None      # queued tasks are discarded
 
     def join(self):
-        pass
+        # waits for every queued task
+        if self._background is not None:
+            func, chunks = self._background
+            self._background = None
+            if chunks and CURRENT is not None:
+                try:
+                    CURRENT.run_map(func, chunks, self.processes)
+                except Exception:  # noqa
+                    pass
 
     def __enter__(self):
         return self
 
     def __exit__(self, *a):
         self.terminate()
+
+
+def background_pending():
+    """Number of sub-tasks still queued on pools of the current execution (left behind by an abandoned imap)."""
+    sch = CURRENT
+    if sch is None:
+        return 0
+    n = 0
+    for p in getattr(sch, "pools", ()):
+        if p._background is not None:
+            n += sum(len(c) for c in p._background[1])
+    return n
 
 
 def _capture(func, t):
